@@ -29,6 +29,13 @@ ASSUMPTIONS = ["healpy.query_disc/query_polygon(inclusive=True) return a "
                "healpy angle conventions (colatitude, longitude in radians)"]
 
 MUTANTS = [
+    ("sub-pixel circles reduced to the pixel of their centre",
+     "AegeanTools/regions.py",
+     "            pix = hp.query_disc(2**depth, vec, r, inclusive=True, nest=True)\n",
+     "            pix = hp.query_disc(2**depth, vec, r, inclusive=True, nest=True)\n"
+     "            if 2*r < hp.nside2resol(2**depth):\n"
+     "                pix = [hp.vec2pix(2**depth, *vec, nest=True)]\n",
+     "C09-R1"),
     ("negative RA wrapped by 2 pi in the unit-agnostic packer",
      "AegeanTools/regions.py",
      "            sky = np.array([(ra, dec)])\n        return sky",
@@ -111,50 +118,7 @@ def run(ctx):
     ci = prog.klass("regions.Region")
     mod = prog.modules[ci.module]
     # ---------------------------------------------------------------- R1
-    ctx.rule("C09-R1", "healpy.query_disc / query_polygon: inclusive=True, "
-             "nest=True, nside == 2**depth with the depth the pixels are "
-             "added under")
-    n = 0
-    for m, fi in ci.methods.items():
-        for c in walk_no_nested(fi.node):
-            if not isinstance(c, ast.Call):
-                continue
-            d = prog.dotted(mod, c.func) if isinstance(c.func,
-                                                       ast.Attribute) else ""
-            if d not in ("healpy.query_disc", "healpy.query_polygon"):
-                continue
-            n += 1
-            inc, nest = kwarg(c, "inclusive"), kwarg(c, "nest")
-            ctx.check("C09-R1", fi, "flags of " + norm(c, 70),
-                      isinstance(inc, ast.Constant) and inc.value is True and
-                      isinstance(nest, ast.Constant) and nest.value is True,
-                      "inclusive=True (cover every overlapping pixel) and "
-                      "nest=True (pixel ids are NESTED) are required; found "
-                      "inclusive=%s nest=%s" %
-                      (norm(inc) if inc is not None else "<default False>",
-                       norm(nest) if nest is not None else "<default False>"),
-                      node=c)
-            nside = arg_or_kw(c, 0, "nside")
-            # the result variable and its add_pixels(depth)
-            asg = [s for s in walk_no_nested(fi.node)
-                   if isinstance(s, ast.Assign) and s.value is c]
-            depth_txt = None
-            if asg:
-                v = norm(asg[0].targets[0])
-                for a in walk_no_nested(fi.node):
-                    if isinstance(a, ast.Call) and \
-                            norm(a.func) == "self.add_pixels" and a.args and \
-                            norm(a.args[0]) == v and len(a.args) > 1:
-                        depth_txt = norm(a.args[1])
-            okn = nside is not None and depth_txt is not None and \
-                norm(nside).replace(" ", "") in ("2**" + depth_txt,
-                                                 "1<<" + depth_txt)
-            ctx.check("C09-R1", fi, "nside of " + norm(c, 70), okn,
-                      "the query resolution %s must be 2**%s, the depth the "
-                      "pixels are stored under" %
-                      (norm(nside) if nside is not None else None,
-                       depth_txt), node=c)
-    ctx.floor("C09-R1", n, 2, "healpy query calls")
+    query_rule(ctx, prog, ci, "C09-R1")
     # ---------------------------------------------------------------- R2
     ctx.rule("C09-R2", "(lon, lat) -> (colatitude, longitude) radians chain "
              "into healpy; callers pass the contracted units")
@@ -516,3 +480,89 @@ def r8_unit_agnostic(ctx, prog, ci, sw):
                   "amount" % (norm(bad[0], 60) if bad else ""),
                   node=bad[0] if bad else fi_.node)
     ctx.floor("C09-R8", n, 2, "unit-agnostic stages of sky_within")
+
+
+def query_rule(ctx, prog, ci, rule):
+    """shapes are rasterised by the inclusive healpy queries at the level the
+    pixels are stored under, and nothing else feeds add_pixels in the shape
+    builders (shared by C09-R1 and C08-R14)"""
+    mod = prog.modules[ci.module]
+    ctx.rule(rule, "healpy.query_disc / query_polygon: inclusive=True, "
+             "nest=True, nside == 2**depth with the depth the pixels are "
+             "added under")
+    n = 0
+    for m, fi in ci.methods.items():
+        for c in walk_no_nested(fi.node):
+            if not isinstance(c, ast.Call):
+                continue
+            d = prog.dotted(mod, c.func) if isinstance(c.func,
+                                                       ast.Attribute) else ""
+            if d not in ("healpy.query_disc", "healpy.query_polygon"):
+                continue
+            n += 1
+            inc, nest = kwarg(c, "inclusive"), kwarg(c, "nest")
+            ctx.check(rule, fi, "flags of " + norm(c, 70),
+                      isinstance(inc, ast.Constant) and inc.value is True and
+                      isinstance(nest, ast.Constant) and nest.value is True,
+                      "inclusive=True (cover every overlapping pixel) and "
+                      "nest=True (pixel ids are NESTED) are required; found "
+                      "inclusive=%s nest=%s" %
+                      (norm(inc) if inc is not None else "<default False>",
+                       norm(nest) if nest is not None else "<default False>"),
+                      node=c)
+            nside = arg_or_kw(c, 0, "nside")
+            # the result variable and its add_pixels(depth)
+            asg = [s for s in walk_no_nested(fi.node)
+                   if isinstance(s, ast.Assign) and s.value is c]
+            depth_txt = None
+            if asg:
+                v = norm(asg[0].targets[0])
+                for a in walk_no_nested(fi.node):
+                    if isinstance(a, ast.Call) and \
+                            norm(a.func) == "self.add_pixels" and a.args and \
+                            norm(a.args[0]) == v and len(a.args) > 1:
+                        depth_txt = norm(a.args[1])
+            okn = nside is not None and depth_txt is not None and \
+                norm(nside).replace(" ", "") in ("2**" + depth_txt,
+                                                 "1<<" + depth_txt)
+            ctx.check(rule, fi, "nside of " + norm(c, 70), okn,
+                      "the query resolution %s must be 2**%s, the depth the "
+                      "pixels are stored under" %
+                      (norm(nside) if nside is not None else None,
+                       depth_txt), node=c)
+    ctx.floor(rule, n, 2, "healpy query calls")
+    # every pixel list a shape builder stores comes from such a query
+    QUERIES = ("healpy.query_disc", "healpy.query_polygon")
+    for m in ("add_circles", "add_poly"):
+        fi = ci.methods.get(m)
+        if fi is None:
+            raise AnalysisError(rule + ": Region.%s missing" % m)
+        for a in walk_no_nested(fi.node):
+            if not (isinstance(a, ast.Call) and
+                    norm(a.func) == "self.add_pixels" and a.args):
+                continue
+            srcs = []
+            if isinstance(a.args[0], ast.Name):
+                srcs = [st.value for st in walk_no_nested(fi.node)
+                        if isinstance(st, ast.Assign) and any(
+                            isinstance(t, ast.Name) and t.id == a.args[0].id
+                            for t in st.targets)]
+            else:
+                srcs = [a.args[0]]
+            bad = []
+            for v in srcs:
+                calls = [c for c in ast.walk(v) if isinstance(c, ast.Call)
+                         and isinstance(c.func, ast.Attribute)
+                         and (prog.dotted(mod, c.func) or "").startswith(
+                             "healpy.")]
+                if not calls or any(prog.dotted(mod, c.func) not in QUERIES
+                                    for c in calls):
+                    bad.append(v)
+            ctx.check(rule, fi, "pixels stored by %s come from the inclusive "
+                      "query" % m, bool(srcs) and not bad,
+                      "`%s` feeds add_pixels without going through "
+                      "query_disc / query_polygon(inclusive=True): a shape "
+                      "that straddles a pixel boundary is covered only "
+                      "partly (e.g. a sub-pixel circle reduced to the pixel "
+                      "of its centre)" % (norm(bad[0], 60) if bad else ""),
+                      node=a)
